@@ -462,6 +462,43 @@ func runC10(c *Ctx) {
 				}
 				emitted := notIn(func(s string) bool { return !strings.Contains(s, "FindIndex[[]byte](p1,") })
 				ancestor := notIn(func(s string) bool { return strings.Contains(s, "FindIndex[[]byte](p1,") })
+				if !emitted && !ancestor {
+					// the same test against one set: a local map that was seeded with every ancestor hash
+					// and receives every hash that is emitted; the append happens where the hash is not in it
+					var set ssa.Value
+					var keyStr string
+					okSet := sf.EveryPathHas(call.Block(), func(f Fact) bool {
+						if f.IsCmp || f.Truth || f.B.Op != "extract" || f.B.Sym != "#1" || f.B.Args[0].Op != "lookup" {
+							return false
+						}
+						lk := f.B.Args[0]
+						if lk.Args[0].V == nil {
+							return false
+						}
+						if _, isMk := lk.Args[0].V.(*ssa.MakeMap); !isMk {
+							return false
+						}
+						set, keyStr = lk.Args[0].V, lk.Args[1].String()
+						return true
+					})
+					if okSet && set != nil {
+						seeded, recorded := false, false
+						for _, r := range *set.Referrers() {
+							mu, ok := r.(*ssa.MapUpdate)
+							if !ok {
+								continue
+							}
+							ks := sf.Term(mu.Key).String()
+							if strings.Contains(ks, "p1[") {
+								seeded = true
+							}
+							if ks == keyStr {
+								recorded = true
+							}
+						}
+						emitted, ancestor = recorded, seeded
+					}
+				}
 				c.Require("C10.P2 sibling-hash-once", FuncKey(sibs)+": append to the sibling list", p.InstrPos(call), "a hash is emitted only if it is neither in the list already nor an ancestor of a queried node (Verify consumes the list positionally)", emitted && ancestor, fmt.Sprintf("not-yet-emitted test=%v, not-an-ancestor test=%v", emitted, ancestor))
 			}
 		}
